@@ -257,3 +257,10 @@ Record traitfacts := {
 Definition model_traits : traitfacts :=
   {| tf_eq_int := true; tf_eq_string := true; tf_eq_payload := true; tf_eq_noeq := false;
      tf_same_dispatch := true; tf_impl_eq_shape := true; tf_impl_noeq_false := true |}.
+
+(* implicit special members of Any: the user-declared copy constructor, copy assignment and destructor
+   suppress the implicit move constructor / move assignment, so an rvalue Any is COPIED (the source
+   stays valid); the model therefore has no move operations for Any *)
+Record anyspecial := { as_copy_ctor_user : bool; as_copy_assign_user : bool; as_move_ctor_exists : bool; as_move_assign_exists : bool }.
+Definition model_anyspecial : anyspecial :=
+  {| as_copy_ctor_user := true; as_copy_assign_user := true; as_move_ctor_exists := false; as_move_assign_exists := false |}.
